@@ -40,6 +40,38 @@ def spill_reset(ck, F, rule="SPILL-RESET"):
         ck.ob(rule, "%s|reset-same-sheet" % fn, ("param", "sheet") in sr, "%s resets spills of %s, not of its `sheet` parameter" % (fn, sorted(sr)), *b.loc(rb))
 
 
+def ordered_writes(b, F, P, pt):
+    """{block: description} of the persistent writes of a body, placed where they happen: stores, calls whose effect
+    summary writes persistent state, and `&mut` borrows handed straight to a mutator.  A `&mut` borrow bound to a named
+    variable (`let styles = &mut self.workbook.styles;`) is not itself a write: what is written through it shows up at the
+    stores and (re)borrows that use it."""
+    named_borrow = set()
+    for bi, blk in enumerate(b.blocks):
+        for s in blk["s"]:
+            rv = s["rv"]
+            if rv["k"] in ("ref", "rawptr") and rv.get("mut") and not place_proj(s["p"]) and b.local_name(s["p"]["l"]):
+                named_borrow.add((bi, s.get("line", 0)))
+    be = block_effects(b.rec, F.adts)
+    writes = {}
+    for bi, es in be.items():
+        for e, line in es:
+            if is_persistent_effect(e, pt):
+                if (bi, line) in named_borrow and not _store_on_line(b, bi, line):
+                    continue
+                writes.setdefault(bi, "%s.%s" % (e[0].rsplit("::", 1)[-1], e[1]))
+    for bi, t in b.calls():
+        c = t["fn"].get("r")
+        if c in F.heads:
+            pe = [e for e in P.effects(c) if is_persistent_effect(e, pt)]
+            if pe:
+                writes.setdefault(bi, "call " + F.qname_of(c).rsplit("::", 1)[-1])
+    return writes
+
+
+def _store_on_line(b, bi, line):
+    return any(place_proj(s["p"]) and s.get("line", 0) == line for s in b.blocks[bi]["s"])
+
+
 def validate_first(ck, F, rule="VALIDATE-FIRST", fns=None):
     """In the structural operations no explicit error construction is reachable after the first call or store whose
     effect summary writes persistent state; and the can_* pre-check dominates the first such write."""
@@ -47,18 +79,7 @@ def validate_first(ck, F, rule="VALIDATE-FIRST", fns=None):
     pt = persistent_types(F)
     for fn in (fns or SIX):
         b = ck.need(F.one, "model::Model::" + fn)
-        be = block_effects(b.rec, F.adts)
-        writes = {}
-        for bi, es in be.items():
-            for e, line in es:
-                if is_persistent_effect(e, pt):
-                    writes.setdefault(bi, "%s.%s" % (e[0].rsplit("::", 1)[-1], e[1]))
-        for bi, t in b.calls():
-            c = t["fn"].get("r")
-            if c in F.heads:
-                pe = [e for e in P.effects(c) if is_persistent_effect(e, pt)]
-                if pe:
-                    writes.setdefault(bi, "call " + F.qname_of(c).rsplit("::", 1)[-1])
+        writes = ordered_writes(b, F, P, pt)
         ck.ob(rule, "%s|has-writes" % fn, bool(writes), "%s: no persistent write found (anchor lost?)" % fn, b.file, b.line)
         if not writes:
             continue
@@ -1041,10 +1062,7 @@ def full_flags(ck, F, rule="FULL-RANGE"):
     ck.ob(rule, "stringify|full-flag sites", n >= 2, "expected full_row / full_column computations in stringify, found %d" % n, b.file, b.line)
 
 
-VALIDATE_WIDE_EXCEPT = {
-    "update_named_style": "its only error after the first write is `rename_named_style_entry(name, new_name)?`, whose two failure causes (name "
-                          "missing, new_name taken) were both tested before any write in the same function",
-}
+VALIDATE_WIDE_EXCEPT = {}
 
 
 def validate_first_wide(ck, F, rule="VALIDATE-FIRST"):
@@ -1067,18 +1085,7 @@ def validate_first_wide(ck, F, rule="VALIDATE-FIRST"):
     n = 0
     for c in sorted(targets):
         b = F.body(c)
-        be = block_effects(b.rec, F.adts)
-        writes = {}
-        for bi, es in be.items():
-            for e, line in es:
-                if is_persistent_effect(e, pt):
-                    writes.setdefault(bi, "%s.%s" % (e[0].rsplit("::", 1)[-1], e[1]))
-        for bi, t in b.calls():
-            cc = t["fn"].get("r")
-            if cc in F.heads:
-                pe = [e for e in P.effects(cc) if is_persistent_effect(e, pt)]
-                if pe:
-                    writes.setdefault(bi, "call " + F.qname_of(cc).rsplit("::", 1)[-1])
+        writes = ordered_writes(b, F, P, pt)
         if not writes:
             continue
         n += 1
